@@ -115,6 +115,13 @@ for uc in (0, 1):
           style="legacy", unwind=17, cbmc_flags=SRV_FLAGS, props={"C03": "all", "C04": "all", "C05": "safety", "C15": "all", "C14": "all"}, min_obl=10, timeout=900, cost=200, mem_gb=24,
           what="handle_null_request, command %s (either letter case), userid case %s: no setting changes / BADIP only unless the named session is live, from its own source and logged in; at most one answer; no tun write; SESSION_WF preserved" % (cmd, "literal 0" if uc == 0 else "any other value"))
 
+for ent, fns, props, what in (
+    ("h_send_chunk", ["send_chunk_or_dataless", "save_to_qmem_pingordata", "save_to_dnscache", "get_from_outpacketq"], {"C15": "all", "C14": "all", "C05": "safety"},
+     "send_chunk_or_dataless on an arbitrary session: payload <= fragsize, last flag only on the final fragment, fragment number field, one answer (+1 for a remembered duplicate), query consumed, SESSION_WF preserved"),
+    ("h_downstream_ack", ["process_downstream_ack"], {"C15": "all", "C05": "safety"}, "process_downstream_ack: only a matching ack advances, by exactly the bytes sent, fragment numbers consecutive"),
+    ("h_outpacket_queue", ["save_to_outpacketq", "get_from_outpacketq", "start_new_outpacket"], {"C15": "all", "C01": "all", "C05": "safety"}, "outpacket queue: FIFO of 4, new packets start at fragment 0 with the next sequence number")):
+    G(name="srv_" + ent[2:], harness="h_iodined.c", entry=ent, enforce=fns, style="legacy", unwind=17, cbmc_flags=SRV_FLAGS, props=props, min_obl=10, timeout=900, cost=100, mem_gb=24, what=what)
+
 LEVELS = {}
 TRUSTED_BASE = ["CBMC 6.11.0 (goto-cc front end, goto-instrument --dfcc contract instrumentation, symex)",
                 "kissat (SAT back end)", "gcc -E (expansion of spec macros inside loop contracts)"]
